@@ -1093,6 +1093,9 @@ func bridgeCfgFor(prop, tier string) (BridgeCfg, engine.Config) {
 		cfg.DepChains = []string{"ethereum", "bsc"}
 		cfg.Seeds = [][]engine.Op{seedObserved, seedTwoTokenBatches}
 	case "C15":
+		if !thorough {
+			ec.MaxDepth = 5
+		}
 		cfg.Ops = opsSet("Next", "Send", "ReqBatch", "Exec", "Deposit", "Cancel", "Confirm", "Prices")
 		cfg.Fees = []int64{7}
 		cfg.SendDenoms = []string{"hub"}
@@ -1148,7 +1151,17 @@ func init() {
 		hd.Fees = []int64{7}
 		hd.Ops = opsSet("Next", "Deposit", "ReqBatch", "Exec", "ExtAdvance", "NextTimeout")
 		hd.Seeds = [][]engine.Op{append(append([]engine.Op{}, seedObserved...), engine.OpN("Deposit", "minter", "hub", "ethereum", 0, 0), engine.OpN("Next", 5))}
+		// governance takes the token off the originating chain's list while a transfer from there is pending (see C04)
+		dl := cfg
+		dl.Relist = []int{0}
+		dl.Ops = opsSet("Next", "NextTimeout", "Deposit", "Relist", "Send", "ReqBatch")
+		dl.SendChains = []string{"minter", "bsc"}
+		dl.DepChains = []string{"ethereum"}
+		dl.DepDests = []string{"minter", "bsc"}
+		dl.DepFees = []int64{0}
+		dl.Seeds = [][]engine.Op{{}, {engine.OpN("Next", 5)}}
 		return []MultiCase{{Name: "oracle prices present", Spec: NewBridge(cfg), Cfg: ec}, {Name: "no oracle prices yet", Spec: NewBridge(np), Cfg: ec2},
+			{Name: "token taken off the originating chain's list while a transfer from there is pending", Spec: NewBridge(dl), Cfg: ec2},
 			{Name: "24-decimals token, fee-paying transfers from Minter, fee surplus at execution", Spec: NewBridge(hd), Cfg: ec2}}, bridgeAssumptions(cfg)
 	}))
 	Register("C13", MultiRunner(func(tier string) ([]MultiCase, []string) {
